@@ -994,6 +994,31 @@ std::vector<shape_t> make_shapes()
                     opPI64(1, 2), opE(1), opT(ot::WRITE_READ), opT(ot::COPY)});
         shapes.push_back(s);
     }
+    // an integer parameter whose domain reaches beyond 2^53: int64 values there are not representable as doubles, so any
+    // detour of an integer assignment through a floating point type changes what is stored or what is accepted
+    for (const bool strict : {false, true})
+    {
+        constexpr int64_t P53 = int64_t{1} << 53;
+        constexpr int64_t P62 = int64_t{1} << 62;
+        shape_t           s;
+        s.name     = strict ? "int_0_le_v_lt_2p62" : "int_0_le_v_le_2p62";
+        s.ref.kind = kind_t::INT;
+        s.ref.lo   = 0;
+        s.ref.hi   = static_cast<double>(P62); // exact
+        s.ref.loLE = true;
+        s.ref.hiLE = !strict;
+        s.ref.i1   = 5;
+        s.make     = [strict]
+        { return strict ? parameter_t::make_integer("p", 0, LE, 5, LT, P62) : parameter_t::make_integer("p", 0, LE, 5, LE, P62); };
+        s.ops = {opI64(0), opI64(5), opI64(-1), opI64(P53), opI64(P53 + 1), opI64(P53 - 1), opI64(1234567890123456789LL),
+                 opI64(P62 - 1), opI64(P62), opI64(P62 + 1), opI64(std::numeric_limits<int64_t>::max()),
+                 opI64(std::numeric_limits<int64_t>::min()), opI32(7), opF64(2.0), opF64(NaN), opF64(-1.0),
+                 opS("5"), opS("9007199254740993"), opS("4611686018427387903"), opS("4611686018427387905"), opS("abc"), opS("")};
+        add_common_tail(s.ops);
+        core_of(s, {opI64(0), opI64(P53 + 1), opI64(P62 - 1), opI64(P62), opI64(P62 + 1), opI64(1234567890123456789LL), opF64(2.0),
+                    opS("9007199254740993"), opS("abc"), opT(ot::WRITE_READ), opT(ot::COPY)});
+        shapes.push_back(s);
+    }
     return shapes;
 }
 
